@@ -18,7 +18,7 @@ RULE = (
     "case = hypergraph or simplicial complex with >= 1 edge of >= 2 nodes (labels int / negative / gapped / str / multi-char "
     "str / integral floats / mixed int-float / numpy ints, isolated nodes, singleton edges, multi-edges, explicit IDs) + layout options (center, radius, resolution, "
     "equidistant, seed, k, return_phantom_graph) + max_order + a style mode (scalar / list / dict keyed by ID / stat "
-    "object) + which drawing function (draw, draw_nodes, draw_hyperedges, draw_simplices). Oracle: every layout returns "
+    "object) + presentation options that must not move anything (node / hyperedge labels, marker shape, alpha, rescale_sizes, aspect, dyad style, edge line width, hull) + the position dict in node order, reversed or with extra keys + which drawing function (draw, draw_nodes, draw_hyperedges, draw_simplices). Oracle: every layout returns "
     "exactly one finite 2-vector per node (bipartite layout: per node and per edge); edge_positions_from_barycenters = mean "
     "of member positions; drawing with a supplied pos succeeds and node_collection offsets = [pos[n] for n in H.nodes], "
     "dyad segments = the two-node edges (multiset of endpoint pairs), patch polygons = the edges of 3..max_order+1 nodes "
